@@ -247,8 +247,12 @@ Print Assumptions c01_lookups_total.
    included), 5 array lengths — equals what Gen/Layouts.v says, which translate/format_layouts.py regenerates from the struct
    definitions of minidump-common/src/format.rs on every run; and every row of Model.ctx_table (CONTEXT_* size, offset and width
    of context_flags) agrees with the generated layout of that context struct, for every processor_architecture value *)
-Theorem c01_layout_pinned : layout_pins_ok = true /\ forall arch, ctx_row_ok arch = true.
-Proof. exact (conj layout_pinned ctx_rows_ok). Qed.
+Theorem c01_layout_pinned : layout_pins_ok = true /\ (forall arch, ctx_row_ok arch = true) /\
+  (* the exception models use the pinned length of exception_information, not a free literal *)
+  (forall n, exception_print Fixed n = exc_print_loop 16 0 (Z.min n EXC_INFO_LEN)) /\
+  (forall n i limit, 0 <= i -> limit <= EXC_INFO_LEN -> exc_print_loop n i limit <> Pan PANIC_EXC_INDEX) /\
+  (forall e s, blen (exc_info e s) = EXC_INFO_LEN).
+Proof. exact (conj layout_pinned (conj ctx_rows_ok exception_models_use_pinned_length)). Qed.
 Print Assumptions c01_layout_pinned.
 
 (* ---- round 5: every index site of minidump/src and minidump-common/src whose index is an integer literal (scanned from the
